@@ -20,6 +20,12 @@ def textD (op : String) (a : List Nat) : Option String :=
   match op with
   | "clean" => some <| match runP pGText a with
       | some t => ok (eNats (clean t)) | none => reject
+  | "modeswitch" => some <| match runP pNats a with
+      -- the code-point mode answers of the four functions (asked straight after the grapheme-mode calls on the same text)
+      | some cps =>
+        let t := cps.map (fun c => [c])
+        ok (eNats (clean t) ++ ePairs (wordBoundaries t) ++ eNats (removeWs t) ++ eNats (full t))
+      | none => reject
   | "wb" => some <| match runP pGText a with
       | some t => ok (ePairs (wordBoundaries t)) | none => reject
   | "remove" => some <| match runP pGText a with
@@ -32,6 +38,16 @@ def textD (op : String) (a : List Nat) : Option String :=
         match wsOps f t with
         | some o => ok (eNats (o.map WsOp.toNat))
         | none => err "should-not-happen"
+      | none => reject
+  | "wslabels" => some <| match runP (do
+        let g ← pBool; let f ← pText; let t ← pText; let _tk ← pNat; let np ← pNat; let ns ← pNat; pure (g, f, t, np, ns)) a with
+      -- the labels of the whitespace-correction task: -1 (0 on the wire) on prefix / suffix tokens, operations(input,
+      -- target) in between; the tokenizer the task is configured with does not matter
+      | some (g, f, t, np, ns) =>
+        if !g && !(singletons f && singletons t) then reject else
+        match wsOps f t with
+        | some o => ok (eNats (List.replicate np 0 ++ o.map (fun x => x.toNat + 1) ++ List.replicate ns 0))
+        | none => err "task"
       | none => reject
   | "repair" => some <| match runP (do let t ← pGText; let o ← pOps; pure (t, o)) a with
       | some (t, o) => match repair t o with
